@@ -102,7 +102,7 @@ def static_ints(it):
     return out
 
 
-def accelerate_leaks(it, px, s0, s1, s2):
+def accelerate_leaks(it, px, s0, s1, s2, base=None):
     """-> (k, [description]) after making every linearly leaking integer cell symbolic, or (None, [])"""
     leaks = []
     for key, v2 in s2.items():
@@ -119,6 +119,8 @@ def accelerate_leaks(it, px, s0, s1, s2):
     desc = []
     for (name, pth), v2, d in leaks:
         cell = it.statics[name]
+        if base is not None:
+            v2 = base[(name, pth)]          # the value after all real repetitions
         sym = z3.BitVecVal(v2 % (1 << 64), 64) + k * z3.BitVecVal(d % (1 << 64), 64)
         cell.v = _replace_leaf(cell.v, pth, sym)
         desc.append('%s%s: %+d per failing evaluation' % (name, list(pth), d))
